@@ -59,7 +59,9 @@ def identify(identification: Identification) -> Expression:
 
     if district_without_treatment in graph.districts():
         parents = list(graph.topological_sort())
-        expression = Product.safe(p_parents(v, parents) for v in district_without_treatment)
+        expression = Product.safe(
+            _p_parents(identification, v, parents) for v in district_without_treatment
+        )
         ranges = district_without_treatment - outcomes
         return Sum.safe(
             expression=expression,
@@ -243,7 +245,9 @@ def line_6(identification: Identification) -> Expression:
         raise ValueError("Line 6 precondition not met")
 
     parents = list(graph.topological_sort())
-    expression = Product.safe(p_parents(v, parents) for v in district_without_treatments)
+    expression = Product.safe(
+        _p_parents(identification, v, parents) for v in district_without_treatments
+    )
     ranges = district_without_treatments - outcomes
     return Sum.safe(
         expression=expression,
@@ -292,11 +296,40 @@ def line_7(identification: Identification) -> Identification:
             return Identification.from_parts(
                 outcomes=outcomes,
                 treatments=treatments & district,
-                estimand=Product.safe(p_parents(v, parents) for v in district),
+                estimand=Product.safe(_p_parents(identification, v, parents) for v in district),
                 graph=graph.subgraph(district),
             )
 
     raise ValueError("Could not identify suitable district")
+
+
+def _is_marginal_of_joint(expression: Expression) -> bool:
+    """Check if the expression is a joint probability, possibly with some variables summed out."""
+    while isinstance(expression, Sum):
+        expression = expression.expression
+    return isinstance(expression, Probability) and not expression.parents
+
+
+def _p_parents(
+    identification: Identification, child: Variable, ordering: Sequence[Variable]
+) -> Expression:
+    r"""Get :math:`P(v_i|v_\pi^{(i-1)})` with respect to the current distribution of the identification.
+
+    :param identification: The data structure with the current distribution (estimand) and graph
+    :param child: The child variable
+    :param ordering: A topologically ordered sequence of all variables in the current graph.
+    :return: An expression for the conditional probability of the child given its predecessors
+
+    While the current distribution is the observational joint distribution (or a marginal of it),
+    this is simply the conditional probability :math:`P(v_i|v_\pi^{(i-1)})`. After line 7 replaced
+    the distribution by a product of conditionals, it has to be derived from that product.
+    """
+    if _is_marginal_of_joint(identification.estimand):
+        return p_parents(child, ordering)
+    index = ordering.index(child)
+    numerator = Sum.safe(expression=identification.estimand, ranges=ordering[index + 1 :])
+    denominator = Sum.safe(expression=identification.estimand, ranges=ordering[index:])
+    return numerator / denominator
 
 
 def p_parents(child: Variable, ordering: Sequence[Variable]) -> Probability:
